@@ -12,14 +12,17 @@ claim("C01", "Lean 4 theorems about definitions regenerated from the source (py2
       "For every parameter value satisfying the constructor's constraint and every real input, the generated Affine/Loc/Scale/Exp/SoftPlus/Tanh/LeakyTanh "
       "kernels are mutually inverse on their (co)domains and the generated Chain/Invert preserve that for any tree depth; the generated definitions are "
       "re-derived from /repo on every run and run against the real methods on boundary-directed inputs.",
-      _TB + " Coupling/MAF/BNAF/Planar/Scan/Vmap round trips are tied through C08/C09/C10's models.", "DESIGN.md §5 C01")
+      _TB + " Also proved (DESIGN.md §5 C01): Planar with the generated invertibility constraint (leaky-relu slope 0 < s <= 1, every w != 0), TriangularAffine "
+      "(forward/back substitution, from the constructor's raw arrays), Coupling, MaskedAutoregressive (the sequential inverse loop modelled literally) and "
+      "BlockAutoregressiveNetwork (injective, onto with LeakyTanh, coordinate-wise root finding recovers the preimage) on hand models Model/Triangular.lean and "
+      "Model/NetInverse.lean tied by correspondence; Scan/Vmap through C08's theorems and the real Scan-vs-Chain-of-unstacked-layers correspondence.", "DESIGN.md §5 C01")
 
 claim("C07", "Lean 4 theorems about definitions regenerated from the source (py2lean) + Float correspondence",
       "The generated transform/inverse of Affine/Loc/Scale/Exp/SoftPlus/Tanh/LeakyTanh/AdditiveCondition/Flip equal the documented mathematical "
       "functions for all parameters and inputs (LeakyTanh: tanh inside, the tangent line with slope 1-tanh^2(max_val) outside, switch points included); the "
       "constructor's softplus reparameterisation reproduces its argument; Permute (hand model, flat row-major) is inverted by argsort for every permutation of "
       "every size and its constructor check accepts exactly the permutations.",
-      _TB + " Model/Ctors.lean and Model/Perm.lean are hand models tied by correspondence. Planar/TriangularAffine/spline documented-function theorems pending; they are exercised by the NumPy-reference oracle only.", "DESIGN.md §5 C07")
+      _TB + " Model/Ctors.lean and Model/Perm.lean are hand models tied by correspondence. Spline (interpolates its knots, identity outside, strictly increasing), Planar (x + u_hat*act(w.x+b), what u_hat is, the leaky-relu inverse) and TriangularAffine (A x + b with A the requested triangle, constructor reproduces its argument) have theorems too (generated Planar kernels; Model/Triangular.lean hand model).", "DESIGN.md §5 C07")
 
 claim("C03", "Lean 4 theorems about definitions regenerated from the source (py2lean) + Float correspondence",
       "The generated AbstractTransformed methods satisfy the change-of-variables identities for every base/bijection record: log_prob = base log-density at the "
@@ -166,8 +169,8 @@ claim("C04", "Lean 4 theorems (Mathlib change of variables) about definitions re
       "Affine/Scale/Loc (any non-zero scale), LeakyTanh (any max_val > 0, switch points included) and RationalQuadraticSpline (any constructor-reachable parameters, one-sided derivatives at the interval ends); "
       "the generated StandardNormal log-density is normalised; Tanh is not onto R and its pull-back only collects the base mass in (-1,1).",
       _TB + " PARTIAL: PRNG statistics (that the base sampler draws from the base density) and rounding are outside; BNAF's sampling direction uses the numerical inverter so 'samples follow the density' "
-      "holds up to C10's tolerance; d-dimensional Coupling/MAF/Planar/BNAF normalisation is reduced to hypotheses (lawful bijection + Jacobian of the inverse + reported log-det, `Mass.InvJacN`) until their "
-      "Jacobian theorems exist. The correspondence is C03's (same generated definitions).", "DESIGN.md §5 C04")
+      "holds up to C10's tolerance; d-dimensional normalisation and sampler law are proved for stacks of affine coupling layers with differentiable conditioners (any depth, any condition); for MAF/Planar/BNAF "
+      "they remain reduced to hypotheses (lawful bijection + Jacobian of the inverse + reported log-det, `Mass.InvJacN`; the Jacobians themselves are C02's theorems). The correspondence is C03's (same generated definitions).", "DESIGN.md §5 C04")
 
 claim("C06", "Lean 4 theorems about a hand-written executable model of the batching layer + differential correspondence with the real methods",
       "In the model of _vectorize/_check_shapes/_get_sample_keys/_get_ufunc_signature and of jnp.vectorize's signature parsing, broadcasting and element "
@@ -199,7 +202,9 @@ claim("C14", "Lean 4: kernel-evaluated staging discipline over a control-flow ta
       "Lean decides on the whole table that no Python-level branch, loop bound, assert or bool/int/float conversion depends on a traced value, that no global/nonlocal or mutation of self "
       "occurs outside constructors and that no static-marked field holds an array; and proves noninterference for every checked skeleton: control path, static data and outcome are the same "
       "for all argument stores with equal static data (the path recorded on tracers is the path of every concrete call; the method is a deterministic function of its arguments). "
-      "jit==eager, vmap==loop, repeatability, flatten/unflatten and leaf serialisation round trips are compared on real objects for every zoo object and method on every run.",
+      "Lean also decides on the regenerated table that no constructor stores a lambda capturing an array- or module-valued argument (all array state is pytree leaves). "
+      "jit==eager, vmap==loop, repeatability, flatten/unflatten and leaf serialisation round trips (also into a freshly constructed model with a different key) are compared on real "
+      "objects for every zoo object and method on every run.",
       _TB + " NOT a proof about JAX's tracer, XLA, vmap batching rules or Equinox's serialiser: assumptions A1/A2 of the theorem state the interface; tracegen.py's expression abstraction is trusted and validated by the harness.", "DESIGN.md §5 C14")
 
 claim("C02", "Lean 4 theorems (Mathlib HasDerivAt/HasFDerivAt of the generated forward map as oracle) about definitions regenerated from the source (py2lean) "
@@ -210,10 +215,11 @@ claim("C02", "Lean 4 theorems (Mathlib HasDerivAt/HasFDerivAt of the generated f
       "(any length; chain rule), the generated Invert (inverse function theorem, proved) and elementwise liftings of any length (Frechet derivative = diagonal matrix, "
       "returned value = log|det J| = sum of the children's) preserve both facts, hence every expression tree over these classes. 'Scalar whatever the shape' is a typing "
       "fact of the model (one real per call) and is checked on the real arrays (shape ()) by the correspondence. "
-      "Classes WITH theorems: the seven leaves above, Chain, Invert, elementwise liftings. Classes WITHOUT theorems yet: RationalQuadraticSpline, TriangularAffine, Planar, "
-      "Permute/Flip, Concatenate/Stack/Partial/Reshape/Scan/Vmap, Coupling, MaskedAutoregressive, BlockAutoregressiveNetwork - their log-dets are covered only by the "
-      "float64 autodiff-Jacobian oracle on real objects (slogdet(jacfwd(transform)), ranks 0-3, run when a tie breaks) and, for the spline and Stack, by the correspondence, "
-      "until their theorems land.",
+      "Further classes with theorems: RationalQuadraticSpline (every point, knots included), Planar (matrix determinant lemma; the returned value is log|det J|), TriangularAffine "
+      "(det = product of the diagonal), Coupling and MaskedAutoregressive (lower-triangular Frechet derivative from the dependency structure), BlockAutoregressiveNetwork (the value "
+      "computed by the modelled transform_and_log_det - block log-Jacobians chained through the generated logmatmulexp - equals log|det J| for every size, weight, condition and "
+      "point; no hypothesis left for the default LeakyTanh). Permute/Flip/Concatenate/Stack/Partial/Reshape/Scan/Vmap log-dets are sums/re-presentations of their children's "
+      "(C08's theorems). The float64 autodiff-Jacobian oracle (slogdet(jacfwd(transform)), ranks 0-3) runs on every class when a tie breaks.",
       _TB + " Model/ToBij.lean elementwise lifting is hand-written and tied by the correspondence on real arrays of ranks 1-3. The autodiff oracle trusts jax.jacfwd and "
       "numpy slogdet in float64 and skips points sitting on a kink of the forward map (leaky-relu hyperplane, spline interval ends).", "DESIGN.md §5 C02")
 
